@@ -302,7 +302,20 @@ func watchdog(limit time.Duration, f func() error) error {
 		return err
 	case <-time.After(limit):
 		gs := sim.LibGoroutines()
-		return fmt.Errorf("the scenario did not complete within %v (normally well under a second): something the node should do within a bound never happened; %d library goroutines:\n%s", limit, len(gs), strings.Join(gs, "\n\n"))
+		hs := sim.HarnessGoroutines()
+		// every wait of the harness is bounded; what has no bound is a call into the library. A scenario that does not
+		// finish with a harness goroutine inside a library call is a library call that never returned; one without is
+		// the harness's own problem ("BROKEN" maps to exit 2)
+		inLib := false
+		for _, h := range hs {
+			if strings.Contains(h, "github.com/bluenviron/gomavlib/v3.") {
+				inLib = true
+			}
+		}
+		if inLib {
+			return fmt.Errorf("the scenario did not complete within %v (normally well under a second): a call into the library never returned; %d library goroutines:\n%s\n\n%d harness goroutines:\n%s", limit, len(gs), strings.Join(gs, "\n\n"), len(hs), strings.Join(hs, "\n\n"))
+		}
+		return fmt.Errorf("BROKEN: the scenario did not complete within %v (normally well under a second) and no harness goroutine is inside a library call; %d library goroutines:\n%s\n\n%d harness goroutines:\n%s", limit, len(gs), strings.Join(gs, "\n\n"), len(hs), strings.Join(hs, "\n\n"))
 	}
 }
 
